@@ -14,3 +14,23 @@ Definition parse_area_shape_t : parse_area_shape_stmt := ParseDecomp.parse_area_
 Definition reparse_raw_t : reparse_raw_stmt := ParseDecomp.reparse_raw parse_render_t.
 Definition parse_decompose_t := ParseDecomp.parse_decompose parse_render_t.
 Definition parse_prefix_refuted_t : parse_prefix_refuted_stmt := ParseRender.parse_prefix_refuted.
+
+(* "exactly the commands the grammar defines": the parser's answer is the meaning of some valid concrete
+   syntax tree of the text, and of every one *)
+Lemma parse_iff_grammar : forall text cmds,
+  parse text = cmds <-> exists t, valid t = true /\ flatten t = text /\ abstract t = cmds.
+Proof.
+  intros text cmds. split.
+  - intros <-. exists (decompose text). split; [apply decompose_valid_t|]. split; [apply decompose_flatten_t|].
+    symmetry. apply parse_decompose_t.
+  - intros [t [Hv [Hf Ha]]]. rewrite <- Hf, <- Ha. apply parse_render_t. exact Hv.
+Qed.
+
+From HV Require Import Proofs.ParseArea.
+Lemma parse_area_well_typed : forall text u, In u (parse text) -> well_typed (ar u).
+Proof.
+  intros text u Hin. rewrite parse_decompose_t in Hin.
+  unfold abstract in Hin. revert Hin. generalize (advance (cprefix (decompose text)) (1, 0)).
+  induction (ccmds (decompose text)) as [|c cs IH]; intros lc Hin; cbn [abstract_cmds In] in Hin; [contradiction|].
+  destruct Hin as [<-|Hin]; [cbn [abstract_cmd ar]; apply area_of_well_typed | eapply IH; exact Hin].
+Qed.
